@@ -23,7 +23,7 @@ import vlib
 from vlib import main, write_ndjson, read_ndjson, MachineryError
 
 MODS = ['flow', 'system', 'circuitbreaker', 'hotspot', 'isolation']
-NPOOL = 6      # valid pool entries per module in the driver (tokens V1..V3 rotate through them by "var")
+NPOOL = 6      # range of "var": tokens V1..V3 rotate through the driver's pool of valid rules by it (hotspot has 8 entries: var 5 reaches the near-equal pair)
 MUTS = ['flip', 'trunc', 'typeswap', 'null', 'nest', 'huge', 'dupkey', 'garbage']
 SPEC_MUTANTS = ['inverted', 'emptyNoClear', 'nullPanicSwallowed', 'nullPanicEscapes', 'nullRejectedCacheAdvanced', 'keepsInvalid']
 FILE_MUTANTS = ['renameOverClears']
@@ -124,11 +124,14 @@ def pattern_scenarios(mod, tr0, grace):
         [L('V2'), dict(op='deliver', kind='nulldoc'), L('V2')],
         [L('I1', 'I2'), L('V3'), L('I1')], [L(), L('V1'), L()],
         [L('V1', 'V1'), L('V1')],
+        # payload P1 then a NEAR-EQUAL P2 (for hotspot and var 5, V2 / V3 are the same rule with the zero-threshold entries of
+        # specificItems replaced, same entry count): GetRules must follow every payload
+        [L('V2'), L('V3'), L('V2'), L('V1', 'V3'), L('V1', 'V2')],
     ]
     out, tr = [], tr0
     for var in range(NPOOL):
         for i, p in enumerate(pats):
-            if var > 0 and i not in (0, 2, 3):
+            if var > 0 and i not in (0, 2, 3, len(pats) - 1):
                 continue
             for cnt in (True, False):
                 out.append([dict(op='new', tr=tr, m=mod, mode='handler', cnt=cnt, var=var)] + [dict(o) for o in p])
